@@ -17,3 +17,6 @@ def run(ctx):
     records = collect_walk_effects(ctx)
     ctx.guard(read_set_rule, ctx, "C19.read-set", records)
     run_kernels(ctx, ["K7", "K14", "K15", "K0", "K10"], "C19")
+    # a swap succeeds only if typing the replacement does not depend on what was typed before
+    from ..rules_ast import persistent_state_rule
+    ctx.guard(persistent_state_rule, ctx, "C19.history-free-typing")
